@@ -93,6 +93,19 @@ func withPattern(base int32, pat int) int32 {
 
 var reported = map[string]bool{}
 
+// fail records an oracle failure; at most 25 inputs per class are written out (vh keeps 2000 in total,
+// one flooding class must not hide the others), the rest is only counted.
+var perClass = map[string]int{}
+
+func fail(r *vh.Run, class string, input any, detail string) {
+	perClass[class]++
+	if perClass[class] <= 25 {
+		r.OracleFail(class, input, detail)
+		return
+	}
+	r.Count("oracle-fail-not-listed:" + class)
+}
+
 func main() {
 	r := vh.Start("C26")
 	defer r.Finish()
@@ -158,13 +171,13 @@ func oracleA(r *vh.Run, m model.CommandMode, inTable bool, row [2]int, p, rev in
 		wantRefused := needE && deniesExtract(p, rev) || needM && deniesModify(p, rev)
 		switch {
 		case wantRefused && allowed && needE && deniesExtract(p, rev):
-			r.OracleFail("extract-classified-not-refused", in, "extract right denied by P but hasNeededPermissions = true")
+			fail(r, "extract-classified-not-refused", in, "extract right denied by P but hasNeededPermissions = true")
 			ok = false
 		case wantRefused && allowed:
-			r.OracleFail("modify-classified-not-refused", in, "modify right denied by P but hasNeededPermissions = true")
+			fail(r, "modify-classified-not-refused", in, "modify right denied by P but hasNeededPermissions = true")
 			ok = false
 		case !wantRefused && !allowed:
-			r.OracleFail("refused-although-granted", in, "all rights the command is classified for are granted but hasNeededPermissions = false")
+			fail(r, "refused-although-granted", in, "all rights the command is classified for are granted but hasNeededPermissions = false")
 			ok = false
 		}
 	}
@@ -174,7 +187,7 @@ func oracleA(r *vh.Run, m model.CommandMode, inTable bool, row [2]int, p, rev in
 		key := fmt.Sprintf("A/%s/%d", name(m), rev)
 		if !reported[key] {
 			reported[key] = true
-			r.OracleFail("unclassified-mode:"+name(m), in,
+			fail(r, "unclassified-mode:"+name(m), in,
 				fmt.Sprintf("command of kind %q: the document denies the right, user-password-only access is not refused (no/insufficient row in perm)", k))
 		}
 		r.Count("gap:" + name(m))
@@ -492,7 +505,7 @@ func partB(r *vh.Run, table map[model.CommandMode][2]int) {
 			got := safeRun(o, src, c, tmp)
 			r.Case("access", []string{"false", "false", "false", "true", "true", "false", vh.Int(int64(o.mode)), "0", "0"}, got)
 			if got == "denied" {
-				r.OracleFail("unencrypted-denied", map[string]any{"doc": s, "op": o.name}, "an unencrypted document was refused for permission reasons")
+				fail(r, "unencrypted-denied", map[string]any{"doc": s, "op": o.name}, "an unencrypted document was refused for permission reasons")
 			} else {
 				r.OracleOK()
 			}
@@ -549,11 +562,11 @@ func oracleB(r *vh.Run, table map[model.CommandMode][2]int, doc string, cfg encC
 	in := map[string]any{"doc": doc, "cipher": cfg.label, "op": o.name, "mode": name(o.mode), "P": p, "R": rev, "credentials": cr.label}
 	ok := true
 	if strings.HasPrefix(got, "panic:") {
-		r.OracleFail("panic-in-operation", in, got)
+		fail(r, "panic-in-operation", in, got)
 		return
 	}
 	if cr.ownerOK && got == "denied" {
-		r.OracleFail("owner-password-denied", in, "the owner password was supplied and the operation was refused for permission reasons")
+		fail(r, "owner-password-denied", in, "the owner password was supplied and the operation was refused for permission reasons")
 		ok = false
 	}
 	if !cr.ownerOK && cr.userOK && !rejectsEncrypted[o.mode] && got != "owner-required" {
@@ -563,13 +576,13 @@ func oracleB(r *vh.Run, table map[model.CommandMode][2]int, doc string, cfg encC
 			wantRefused := needE && deniesExtract(p, rev) || needM && deniesModify(p, rev)
 			switch {
 			case wantRefused && got != "denied" && needE && deniesExtract(p, rev):
-				r.OracleFail("extract-classified-not-refused", in, "got "+got)
+				fail(r, "extract-classified-not-refused", in, "got "+got)
 				ok = false
 			case wantRefused && got != "denied":
-				r.OracleFail("modify-classified-not-refused", in, "got "+got)
+				fail(r, "modify-classified-not-refused", in, "got "+got)
 				ok = false
 			case !wantRefused && got != "ok":
-				r.OracleFail("refused-although-granted", in, "got "+got)
+				fail(r, "refused-although-granted", in, "got "+got)
 				ok = false
 			}
 		}
@@ -577,7 +590,7 @@ func oracleB(r *vh.Run, table map[model.CommandMode][2]int, doc string, cfg encC
 			key := fmt.Sprintf("B/%s/%d", name(o.mode), rev)
 			if !reported[key] {
 				reported[key] = true
-				r.OracleFail("unclassified-mode:"+name(o.mode), in,
+				fail(r, "unclassified-mode:"+name(o.mode), in,
 					"the document denies the right this operation exercises, yet api."+o.name+" succeeded with the user password only")
 			}
 			r.Count("gap-e2e:" + name(o.mode))
